@@ -5,7 +5,7 @@ from vlib import chx, enc
 from vlib.chx import pinned
 from vlib.oracles import cfg as OC
 from vlib.oracles import pda as OP
-from vlib.registry import Cond, product_pins
+from vlib.registry import Cond, product_pins, cfg_pins
 from vlib.conds.c08 import grammar_tags, P2, P3
 
 cfg_canonical = enc.cfg_canonical
@@ -222,7 +222,7 @@ def _sh_cfg2(tier):
 
 
 def _sh_cfg3(tier):
-    return product_pins(h0=[0, 1], l0=[0, 1, 2], s0=[0, 1, 2, 3], h1=[0, 1])
+    return cfg_pins(product_pins(h0=[0, 1], l0=[0, 1, 2], s0=[0, 1, 2, 3], h1=[0, 1]))
 
 
 def _sh_m2(tier):
